@@ -4,6 +4,9 @@
 (* Median / Midpoint functions (harness/c02) against Midpoint.tla.         *)
 (* Records are independent; positions 1..Len(Trace) are visited as a       *)
 (* 16-ary tree so that all TLC workers share the work.                     *)
+(* A record is one call.  Calls made while other goroutines were calling   *)
+(* the functions on their own inputs (spec/MidpointConc.tla, conc = TRUE)  *)
+(* are judged by the same clauses: each caller's result on its own input.  *)
 (*   monitor (cfg MidpointTrace_mon): the property section of C02          *)
 (*   strict  (cfg MidpointTrace_strict): functional equality with the spec *)
 (***************************************************************************)
@@ -29,16 +32,28 @@ f == FaultyMax(n)
 Pairs(a, b) == [i \in DOMAIN a |-> <<a[i], b[i]>>]
 SortedByOff(a) == \A i \in 1 .. (Len(a) - 1) : a[i] <= a[i + 1]
 
+\* A call that returned; a call that did not (recovered panic) has no result
+\* to judge and fails RReturns; k = "race" is a report of the race detector
+\* about two calls, not a call.
+IsAnyCall == l > 0 /\ R.k \in {"dur", "meas"}
+IsCall == IsAnyCall /\ ~R.panicked
+
 \* ------------------------------------------------------------- monitor
-RContain  == l > 0 => (IF n <= 8 THEN ContainFor(R.s, R.ftm) ELSE ContainTight(R.s, R.ftm))
-RMedianIn == l > 0 => MedianIn(R.s, R.med)
-ROrderInv == l > 0 => (R.ftm = R.ftm0 /\ R.med = R.med0)
-RReorders == l > 0 =>
+\* for every n >= 1 there is a result (MidpointConc!CReturns)
+RReturns  == IsAnyCall => ~R.panicked
+\* concurrent calls on disjoint inputs do not touch common memory
+\* (MidpointConc!CRaceFree): the race detector had nothing to report about
+\* two calls of the functions under test
+RRaceFree == l > 0 => R.k # "race"
+RContain  == IsCall => (IF n <= 8 THEN ContainFor(R.s, R.ftm) ELSE ContainTight(R.s, R.ftm))
+RMedianIn == IsCall => MedianIn(R.s, R.med)
+ROrderInv == IsCall => (R.ftm = R.ftm0 /\ R.med = R.med0)
+RReorders == IsCall =>
    IF R.k = "dur"
    THEN IsPerm(R.s, R.postf) /\ IsPerm(R.s, R.postm)
    ELSE IsPerm(Pairs(R.s, R.ts), Pairs(R.postf, R.postft)) /\ IsPerm(Pairs(R.s, R.ts), Pairs(R.postm, R.postmt))
-RRaw      == l > 0 => R.raw_ok
-RMidOK    == (l > 0 /\ R.k = "dur") =>
+RRaw      == IsCall => R.raw_ok
+RMidOK    == (IsCall /\ R.k = "dur") =>
    LET ss == Sort(R.s) IN ss[f + 1] <= R.mid /\ R.mid <= ss[n - f]
 \* measurement variant: the combined timestamp lies between the timestamps of
 \* the two selected measurements, error is nil.  "Selected" = two distinct
@@ -54,15 +69,15 @@ SelectedBetween(x2, lo, hi) ==
    \E i, j \in 1 .. n : /\ (lo = hi) = (i = j)
                         /\ R.s[i] = ss[lo] /\ R.s[j] = ss[hi]
                         /\ Between2(x2, R.ts[i], R.ts[j])
-RTsBetween == (l > 0 /\ R.k = "meas") =>
+RTsBetween == (IsCall /\ R.k = "meas") =>
    /\ SelectedBetween(R.ftmts2, f + 1, n - f)
    /\ SelectedBetween(R.medts2, (n + 1) \div 2, n \div 2 + 1)
-RErrNil   == (l > 0 /\ R.k = "meas") => R.errnil
+RErrNil   == (IsCall /\ R.k = "meas") => R.errnil
 
 \* -------------------------------------------------------------- strict
-SEqualsSpec == l > 0 => (R.ftm = FTM(R.s) /\ R.med = Median(R.s))
-SMid        == (l > 0 /\ R.k = "dur") =>
+SEqualsSpec == IsCall => (R.ftm = FTM(R.s) /\ R.med = Median(R.s))
+SMid        == (IsCall /\ R.k = "dur") =>
    LET ss == Sort(R.s) IN R.mid = Mid(ss[f + 1], ss[n - f])
 \* the slice is left sorted by offset (what slices.SortFunc does; not demanded)
-SSorted     == (l > 0 /\ R.k = "meas") => SortedByOff(R.postf) /\ SortedByOff(R.postm)
+SSorted     == (IsCall /\ R.k = "meas") => SortedByOff(R.postf) /\ SortedByOff(R.postm)
 =============================================================================
